@@ -116,6 +116,11 @@ impl Monitor for C07 {
             if !permissionless && !entitled {
                 out.push(viol("C07", "settled_by_unentitled_signer", ix.tag, format!("signer {signer} bank {bk}"), idx));
             }
+            // naming an entitled key is not enough: it must have signed the transaction
+            let signed = s.tx.ixs.iter().flat_map(|x| x.accounts.iter()).any(|m| m.pubkey == signer && m.is_signer);
+            if !permissionless && !signed {
+                out.push(viol("C07", "settled_without_the_named_signers_signature", ix.tag, format!("signer {signer} bank {bk}"), idx));
+            }
             // eligibility (the program judges before accruing this bank): unweighted EMA values
             match refm::health(a, &acc0, Req::Equity, s.clock) {
                 Ok(h) => {
